@@ -736,3 +736,14 @@ Proof.
   split; [exact Ed|]. split; [rewrite <- Ed; exact J|]. split; [vm_compute; reflexivity|].
   rewrite <- Ed. now apply TInv_tree_eq.
 Qed.
+
+(* on the Pipeline model from pinit: the four AOp back to back, one ARead of the one record, the delay, 4 queue_events calls *)
+Definition ba_history : list action := burst_hist (Px true) (Mkdir ba_d :: ba_rest) [1%nat] [] 4.
+
+Lemma arrival_pipeline_example :
+  exists s0 s obs, pinit (Px true) w0 = Some s0 /\ prun (Px true) s0 ba_history [] = Done (s, obs) /\
+    p_out s = ba_events /\ sound_along (Px true) s0 [] ba_history = true /\ length (k_watches (p_k s)) = 3%nat.
+Proof.
+  eexists; eexists; eexists. split; [vm_compute; reflexivity|]. split; [vm_compute; reflexivity|].
+  split; [reflexivity|]. split; vm_compute; reflexivity.
+Qed.
